@@ -244,6 +244,7 @@ func VerifC07_ParseAnyBytesFull() { verifAnyBytes(34) }
 //
 //verif:reach cut uncut
 func VerifC09_Truncation() {
+	defer func(a, b int) { defs.InputLogMaxMessageBytes, defs.InputLogMaxRecordBytes = a, b }(defs.InputLogMaxMessageBytes, defs.InputLogMaxRecordBytes)
 	defs.InputLogMaxMessageBytes = 6
 	defs.InputLogMaxRecordBytes = 6 + 40
 	max := 8
